@@ -1,0 +1,59 @@
+//go:build verif
+
+package genetics
+
+// VerifHooks are the callbacks of an external deterministic-simulation harness. They exist only under the `verif`
+// build tag; see verif_hooks_off.go for the no-op variants compiled into every ordinary build.
+type VerifHooks struct {
+	// Spawn is called by the parent right before a reproduction goroutine is started
+	Spawn func(id int)
+	// Begin is the first statement of a reproduction goroutine
+	Begin func(id int)
+	// End is called (deferred) when a reproduction goroutine is about to exit
+	End func(id int)
+	// Yield is called at the points where reproduction touches state shared between species
+	Yield func(tag string)
+	// Await is called by the parent before it waits for the reproduction goroutines
+	Await func()
+	// Observe is called at the observation points of an epoch with the intermediate state
+	Observe func(event string, pop *Population, organisms []*Organism, sortedSpecies []*Species)
+}
+
+// Verif holds the installed hooks. It must be set while no epoch is running.
+var Verif *VerifHooks
+
+func verifSpawn(id int) {
+	if h := Verif; h != nil && h.Spawn != nil {
+		h.Spawn(id)
+	}
+}
+
+func verifBegin(id int) {
+	if h := Verif; h != nil && h.Begin != nil {
+		h.Begin(id)
+	}
+}
+
+func verifEnd(id int) {
+	if h := Verif; h != nil && h.End != nil {
+		h.End(id)
+	}
+}
+
+func verifYield(tag string) {
+	if h := Verif; h != nil && h.Yield != nil {
+		h.Yield(tag)
+	}
+}
+
+func verifAwait() {
+	if h := Verif; h != nil && h.Await != nil {
+		h.Await()
+	}
+}
+
+func verifObserve(event string, pop *Population, organisms []*Organism, sortedSpecies []*Species) {
+	if h := Verif; h != nil && h.Observe != nil {
+		h.Observe(event, pop, organisms, sortedSpecies)
+	}
+}
